@@ -7,6 +7,10 @@ COMMON_NOTE = ('python floats are mathematical reals (except clauses marked FP64
                'evidence file are trusted; configuration sizes (phases, elements, list items) are enumerated up to the stated bound, '
                'array lengths / mesh sizes / histories are symbolic (unbounded)')
 P = {
+ 'C13': ('Schedule objects (precipitation and diffusion) executed for constant / break-point / function forms: the value equals the documented function of time (hours, linear, end values) and '
+         'constructor, setter and model.setTemperature give the same function AND the same isothermal flag, also after re-specification; one accepted step (Euler or RK4 stage pattern) of PrecipitateBase records '
+         'time[n+1] = accepted time and temperature[n+1] = schedule(time[n+1]) with all 16 histories aligned; ghost-state invariant dTemp = T[n] - T_tab, |dTemp| <= maxTempChange for the binary lookup table through the real '
+         '_growthRateBinary/_createLookupBinary.', 'break-point lists of length 2-3; staleness bound for the Euler iterator (RK4: monotone-over-a-step schedules only, stated)'),
  'C19': ('testCondition of all six condition classes x both inequalities executed on a PrecipitateBase object with a symbolic history: reads the monitored value at pData.n of the model it is '
          'given, latch, interpolated crossing time within [t(n-1), t(n)] (NRA), reset; stop decision of PrecipitateBase.postProcess for every or/and mix of <= 3 conditions; solver-loop stop clause (C05); TTP calculator wiring.',
          'P, E <= 2; model sub-steps of postProcess are arbitrary callables'),
